@@ -23,7 +23,7 @@ from core import Exn, call, cstr, cbool, clist
 from reqgen import KINDS, KIND_ORDER, BINDINGS, NOW, cfgspec, rspec
 
 CLAIM = {
-    "text": "Coq theorems (Props/C10.v, 14, all closed) over an executable model of Entity._parse_request (receiver addresses per service/binding/context with the aa/aq/pdp fallback and the odd-endpoint-spec branch of Config.endpoint, accepted_time_diff, the section the want_* options are read from, must = want_authn_requests_signed or want_authn_requests_only_with_valid_cert), Entity.unravel per binding incl. the SOAP envelope reader, Request._loads (every non-TypeError exception of the signature check ends in IncorrectlySigned; valid_instance), SecurityContext.correctly_signed_message (root element test, unsigned-and-must, signed -> _check_signature: certificate selection of C03, per-certificate tool runs with the symbolic tool semantics of Model/Xmlsec.v, certificate validation) and Request._verify (Version, Destination, IssueInstant window). PROVED for every configuration, request kind, binding and received text, and for both states of the C01 pre-check (C10_handed_over_only_if_valid): a request is handed to the application only if the text is a clean encoding of it, its root element is the expected request type of that entry point, valid_instance passed, Version is 2.0, Destination is absent/empty or one of the receiver's own addresses for that service and binding (or the receiver has none), IssueInstant lies in [now-86400-slack, now+86400+slack), a signature child on the root verified (tool semantics, either duplicate-ID policy) under a candidate certificate of the issuer that also passed certificate validation - with only_use_keys_in_metadata (the default) a certificate the metadata holds for the issuer with use signing - and want_authn_requests_signed / only_with_valid_cert imply a signature is present; C10_own_options_honoured restates the last clause for the options CONFIGURED in the section of the entity's own type (idp or aa). These are theorems about the model of the library as repaired by three fix: commits in /repo: 0b54cc6b (F16: _check_signature insists on a verified signature whatever only_valid_cert says; C10_before_fix_refuted keeps the witness, C10_repair_keeps_the_rest shows nothing else changes) and dace676c (an attribute authority's own want_* options are read; C10_options_before_fix_refuted keeps the witness), and f6d4380b (the C01 enveloping pre-check; Model/Request.v PRECHECK_IN_FORCE = true, C10_code_state). PROVED for today's code state, WITH the enveloping pre-check of the C01 repair (pre = true): the verified signature is the root's only Signature child, refers to the root's ID and digests exactly the root without it (C10_signature_covers_request), hence every modification of a signed request is refused when the sender's keys signed nothing else (C10_tamper). For the library before f6d4380b (no pre-check) that half is REFUTED by a wrapping witness (C10_covers_refuted_without_precheck) and proved under the hypothesis that the pre-check predicate holds of the received document (C10_covers_partial, C10_tamper_partial). C10_table_is_documented: the entry-point table (method -> request class, msgtype, service, root tag accepted by <msgtype>_from_string, SOAP reader and its root tag, pass-through of the text and must), regenerated from the code by recording on every run, equals the table the model uses. C10_undecodable_refused, C10_wrong_root_refused, C10_witness (non-vacuity). Tie to the code: on every run the real entry points (8 parse_* methods on IdP / AA / SP entities plus Saml2Client.handle_logout_request) and the model are run on the same ~7 300 cases (all 8 request kinds, Redirect/POST/SOAP and the odd bindings, signed/unsigned/wrong key x want_authn_requests_signed x only_with_valid_cert x validate_certificate x only_use_keys_in_metadata x 7 metadata key layouts, 17 mutation operators on signed requests and 33 wrapping variants under both duplicate-ID policies, genuinely signed requests whose Extensions carry the request's ID (or a near miss) on an element of another name, destination variants incl. near misses over 8 endpoint layouts, IssueInstant around both edges for 4 allowances, versions, schema-invalid requests, wrong roots, truncated/garbled encodings and SOAP shapes, seeded random combinations), compared at handed-over/refused granularity.",
+    "text": "Coq theorems (Props/C10.v, 22, all closed) over an executable model of Entity._parse_request (receiver addresses per service/binding/context with the aa/aq/pdp fallback and the odd-endpoint-spec branch of Config.endpoint, accepted_time_diff, the section the want_* options are read from, must = want_authn_requests_signed or want_authn_requests_only_with_valid_cert), Entity.unravel per binding incl. the SOAP envelope reader, Request._loads (every non-TypeError exception of the signature check ends in IncorrectlySigned; valid_instance), SecurityContext.correctly_signed_message (root element test, unsigned-and-must, signed -> _check_signature: certificate selection of C03, per-certificate tool runs with the symbolic tool semantics of Model/Xmlsec.v, certificate validation) and Request._verify (Version, Destination, IssueInstant window). PROVED for every configuration, request kind, binding and received text, and for both states of the C01 pre-check (C10_handed_over_only_if_valid): a request is handed to the application only if the text is a clean encoding of it, its root element is the expected request type of that entry point, valid_instance passed, Version is 2.0, Destination is absent/empty or one of the receiver's own addresses for that service and binding (or the receiver has none), IssueInstant lies in [now-86400-slack, now+86400+slack), a signature child on the root verified (tool semantics, either duplicate-ID policy) under a candidate certificate of the issuer that also passed certificate validation - with only_use_keys_in_metadata (the default) a certificate the metadata holds for the issuer with use signing - and want_authn_requests_signed / only_with_valid_cert imply a signature is present; C10_own_options_honoured restates the last clause for the options CONFIGURED in the section of the entity's own type (idp or aa). These are theorems about the model of the library as repaired by three fix: commits in /repo: 0b54cc6b (F16: _check_signature insists on a verified signature whatever only_valid_cert says; C10_before_fix_refuted keeps the witness, C10_repair_keeps_the_rest shows nothing else changes) and dace676c (an attribute authority's own want_* options are read; C10_options_before_fix_refuted keeps the witness), and f6d4380b (the C01 enveloping pre-check; Model/Request.v PRECHECK_IN_FORCE = true, C10_code_state). PROVED for today's code state, WITH the enveloping pre-check of the C01 repair (pre = true): the verified signature is the root's only Signature child, refers to the root's ID and digests exactly the root without it (C10_signature_covers_request), hence every modification of a signed request is refused when the sender's keys signed nothing else (C10_tamper). For the library before f6d4380b (no pre-check) that half is REFUTED by a wrapping witness (C10_covers_refuted_without_precheck) and proved under the hypothesis that the pre-check predicate holds of the received document (C10_covers_partial, C10_tamper_partial). C10_table_is_documented: the entry-point table (method -> request class, msgtype, service, root tag accepted by <msgtype>_from_string, SOAP reader and its root tag, pass-through of the text and must), regenerated from the code by recording on every run, equals the table the model uses. The recorded table also says which of _loads / loads / _verify / verify / issue_instant_ok each request class resolves to a definition other than Request's own (none): there is ONE pipeline for all eight kinds. NO KIND-SPECIFIC EXCEPTION, proved over the kind parameter: the model's request document carries the kind-specific optional content of the root (d_opts: LogoutRequest NotOnOrAfter / Reason / SessionIndex, AuthnRequest Conditions / Subject / ForceAuthn / IsPassive / Scoping, the optional children of the queries and of ManageNameID / NameIDMapping requests, each dateTime with its value) and C10_blind_to_optional_content shows that for every kind, binding, configuration and text the outcome is unchanged when that content is replaced by any other; C10_no_kind_specific_exception is the refusal form of the full statement (stale / dated ahead / no instant, addressed elsewhere, unsigned-but-wanted, other version, schema-invalid, other root => handed over by no entry point, whatever it carries) and C10_future_not_on_or_after_does_not_excuse its instance for a NotOnOrAfter (or any other dateTime) ahead of now. LONG-LIVED RECEIVER, by induction over message sequences (C10_history, C10_history_handed_over_only_if_valid): whatever one receiver has handed over at any point of a sequence was handed over by _parse_request on that message alone, and ops1 ++ ops2 hands over what ops1 and ops2 do apart - earlier valid requests excuse nothing later. C10_undecodable_refused, C10_wrong_root_refused, C10_witness, C10_logout_witness (non-vacuity). Tie to the code: on every run the real entry points (8 parse_* methods on IdP / AA / SP entities plus Saml2Client.handle_logout_request) and the model are run on the same ~18 300 cases (every request kind WITH each optional attribute / child of that kind alone and combined - 58 option sets incl. NotOnOrAfter 1 s / 1 h / 2 d / 10 y ahead, now and past, Conditions windows open / wide / past / future / one-sided, SubjectConfirmationData windows - x Redirect / POST / SOAP x IssueInstant at +-(86400+allowance) -2..+2 s x Destination swapped with another own endpoint / foreign / near miss x Version x dropped ID x want / only_valid_cert with unsigned, signed, signed-and-stale, signed-and-misaddressed, wrong key, edited, stripped, on IdP, stand-alone AA, SP and through handle_logout_request, the valid request first and again last on each long-lived receiver; shuffled valid / refusable sequences with re-sent texts on one object per kind and binding; and: all 8 request kinds, Redirect/POST/SOAP and the odd bindings, signed/unsigned/wrong key x want_authn_requests_signed x only_with_valid_cert x validate_certificate x only_use_keys_in_metadata x 7 metadata key layouts, 17 mutation operators on signed requests and 33 wrapping variants under both duplicate-ID policies, genuinely signed requests whose Extensions carry the request's ID (or a near miss) on an element of another name, destination variants incl. near misses over 8 endpoint layouts, IssueInstant around both edges for 4 allowances, versions, schema-invalid requests, wrong roots, truncated/garbled encodings and SOAP shapes, seeded random combinations), compared at handed-over/refused granularity; oracle keys of requests with optional content name the kind and the attributes.",
     "note": "Trusted: Coq kernel + vm_compute; the hand-written model is tied to the code by testing (the correspondence above), not proof; signatures are symbolic (a signature node records key, intactness and the digested content) and every statement about verification is relative to the stand-in tool's node-selection semantics (real xmlsec1 is absent); valid_instance (C13), certificate-chain validation (cert.py) and the transport decoders (C14) enter the model as classified inputs computed by the harness itself. Three defects found by this check were repaired in /repo (known_findings.json 'fixed'): F16 (0b54cc6b), the aa option section (dace676c) and request wrapping (5 oracle keys wrapped-request-handed-over:*, repaired with C01's pre-check f6d4380b); the oracle keys stay in the harness and report them again if they return. Only tested, not proved: agreement of model and code; the IssueInstant edges exactly at now-86400-slack and now+86400+slack are run but not compared; a Redirect-binding query-string signature is never seen by _parse_request (the application must call verify_redirect_signature, property C15); an IdP serving attribute queries through the aa/aq/pdp endpoint fallback reads the want options of its idp section only (not generated).",
     "technique": "machine-checked proof (Coq) + regenerated-table obligation + model/implementation correspondence + implementation-level oracle",
 }
@@ -38,6 +38,8 @@ ASSUMPTIONS = [
     "the SP side has no want-signed option for requests (the options are not in config.SP_ARGS): an unsigned LogoutRequest is handed over by an SP whatever its configuration",
     "the want options are those of the section of the entity's own type (idp / aa); options placed in the aa/aq/pdp sections of an entity of type idp are not generated",
     "IssueInstant exactly at an edge of the window is left unspecified by the property (code: lower edge inside, upper edge outside); generated, run, not compared",
+    "the kind-specific optional content (d_opts) of a request is the harness's own reading of the XML; the model never reads it, so its encoding only matters to the statements C10_blind_to_optional_content / C10_future_not_on_or_after_does_not_excuse",
+    "one long-lived receiver = the cached Server / Saml2Client object of a configuration spec, reused for every case of that configuration in generation order; the model is stateless (C10_history)",
 ]
 RULE = ("a case is non-trivial when something of the property's quantifier is at stake: a signature is present or wanted, the Destination is set, "
         "the IssueInstant is not `now`, the version is not 2.0, the root is not the expected one, the document is schema-invalid or the text is "
@@ -664,6 +666,8 @@ def _optional_clauses(C, fam, etype, eps, kind, bname, opts, slacks, quick, via=
         meta = PLAIN
         if mut:
             mm = g.mutate(x, mut, r)
+            if mm is None:
+                return
             x, meta = mm[0], _named(mm[1], mut.split(":")[0])
         C.add_doc(fam, cs, kind, bname, x, meta, r, signer=sign, via=via, tag=tag)
     # (i) the IssueInstant window: edges -2..+2 s around +-(86400 + allowance)
@@ -701,9 +705,9 @@ def _optional_clauses(C, fam, etype, eps, kind, bname, opts, slacks, quick, via=
             send(cs, r, sign=key, mut="edit-issue-instant")
             send(cs, r, sign=key, mut="strip-signature")
         send(cs, r, sign=key, tag="again")
-    if not quick:
-        cs = cfgspec(etype=etype, eps=eps, ovc=True)
-        send(cs, r)
+    cs = cfgspec(etype=etype, eps=eps, ovc=True)
+    send(cs, r)
+    send(cs, r, sign=key, tag="after-refusal")
 
 
 def fam_optional(C, quick):
@@ -715,11 +719,9 @@ def fam_optional(C, quick):
         for bname in MAIN_B:
             if kind == "authz" and bname == "soap":
                 continue                                              # no SOAP reader for this kind (fam_encodings)
-            if quick and bname == "redirect" and kind not in ("authn", "logout"):
-                continue
             for opts in g.OPT_SETS[kind]:
                 n += 1
-                slacks = [_SLACKS[n % 4]] if quick else _SLACKS
+                slacks = [_SLACKS[n % 4], _SLACKS[(n // 4 + n + 1 + n % 2) % 4]] if quick else _SLACKS
                 _optional_clauses(C, "optional-content", "idp", "full", kind, bname, opts, slacks, quick)
     # an SP taking LogoutRequest / ManageNameIDRequest of the IdP, an attribute authority of its own
     for etype, eps, kinds in [("sp", "sp-full", ["logout", "mni"]), ("aa", "aa-only", ["attrq", "authnq", "logout"])]:
@@ -770,6 +772,8 @@ def fam_history(C, quick, rng):
                             meta = PLAIN
                             if mut:
                                 mm = g.mutate(x, mut, r)
+                                if mm is None:
+                                    continue
                                 x, meta = mm[0], _named(mm[1], mut)
                             C.add_doc("history", cs, kind, bname, x, meta, r, signer=sg, tag="step-%d" % step)
 
@@ -838,8 +842,7 @@ def run(ctx):
     C.correspond()
     ctx.notes.append("cases compared at %s granularity; %d configurations; symbolic names interned: %d, payloads: %d" % (
         "exact exception class" if EXACT else "handed-over / refused", len(g._entities), len(g._names), len(g._payloads)))
-    ctx.notes.append("model state: PRECHECK_IN_FORCE = false (C01 repair not in the library), F16_FIXED = true (expects proposed_fix/C10-1.diff), "
-                     "OPTIONS_OWN_CONTEXT = true (expects proposed_fix/C10-2.diff)")
+    ctx.notes.append("model state: PRECHECK_IN_FORCE = true (fix: f6d4380b), F16_FIXED = true (fix: 0b54cc6b), OPTIONS_OWN_CONTEXT = true (fix: dace676c)")
 
 
 def cex_search(ctx):
